@@ -662,6 +662,11 @@ pub fn crash_points(sink: &mut Sink, rng: &mut Rng, thorough: bool, work: &Path)
           sink.impl_failures.push(format!("C16 after a kill at {} the listing is neither the state before nor after: {} (before {}; after {})", point, rows_now, before, expected_after));
         }
         sink.emit(&format!("crashpoint {} {}", kind, point), "consistent", true);
+        if kind == "chgstatus" || kind == "chgstatus2" {
+          // the file a `chgstatus` killed right after its FIRST store leaves, against the model (`fileChgPrefix`, k = 1)
+          let hist = format!("mk:{}|cs:1:1", entries.iter().map(|e| e.txt()).collect::<Vec<_>>().join(";"));
+          sink.emit(&format!("msfc 1 {} 2 {} 1", hist, if kind == "chgstatus" { "2" } else { "2,3" }), &file_dump(&file), true);
+        }
         if kind == "append" {
           // the FILE the killed writer left, word for word and byte for byte, against the model of the stores
           // already performed at that point (`fileAppendPrefix`)
